@@ -290,10 +290,10 @@ static void exhaustiveCase(uint64_t idx, CaseResult &r, int costValues) {
 
 int main(int argc, char **argv) {
   std::vector<vf::Part> parts;
-  parts.push_back({"c13.random", [](uint64_t, Rng &rng, CaseResult &r) { randomCase(rng, r); }, 20});
-  parts.push_back({"c13.cascade", [](uint64_t, Rng &rng, CaseResult &r) { randomCase(rng, r, true); }, 20});
+  parts.push_back({"c13.random", [](uint64_t, Rng &rng, CaseResult &r) { randomCase(rng, r); }, 6});
+  parts.push_back({"c13.cascade", [](uint64_t, Rng &rng, CaseResult &r) { randomCase(rng, r, true); }, 6});
   parts.push_back({"c13.nearfull", [](uint64_t, Rng &rng, CaseResult &r) { nearFullCase(rng, r); }, 5});
-  parts.push_back({"c13.exhaustive2", [](uint64_t idx, Rng &, CaseResult &r) { exhaustiveCase(idx, r, 2); }, 300});
-  parts.push_back({"c13.exhaustive3", [](uint64_t idx, Rng &, CaseResult &r) { exhaustiveCase(idx, r, 3); }, 900});
+  parts.push_back({"c13.exhaustive2", [](uint64_t idx, Rng &, CaseResult &r) { exhaustiveCase(idx, r, 2); }, 10});
+  parts.push_back({"c13.exhaustive3", [](uint64_t idx, Rng &, CaseResult &r) { exhaustiveCase(idx, r, 3); }, 40});
   return vf::runMain(argc, argv, parts);
 }
